@@ -56,7 +56,7 @@ Proof. exact add_typedef_is_decl. Qed.
 Print Assumptions C04_add_typedef_is_decl.
 
 (* ---- third phase: the classification is what the parser's decisions use (proofs/TypeDispatch.v) ---- *)
-From PV Require Import AstDefs AstSpec AstImpl ParserDecl ParserMain StreamLib TypeDispatch.
+From PV Require Import AstDefs AstSpec AstImpl ParserDecl ParserMain StreamLib RoundTrip RoundTripGen TypeName TypeDispatch.
 
 (* an identifier item that is delivered now (nothing buffered) becomes a TYPEID token exactly when the scope stack
    of this moment says its innermost visible declaration is a typedef - for every parser state and stream *)
@@ -111,6 +111,30 @@ Print Assumptions C04_paren_not_a_type_name.
 Theorem C04_typeid_starts_declaration : kind_in K_TYPEID tbl_DECL_START = true /\ kind_in K_ID tbl_DECL_START = false.
 Proof. exact typeid_starts_declaration. Qed.
 Print Assumptions C04_typeid_starts_declaration.
+
+(* the text `( T ) ( x )`, completely: whenever the whole-parser model sees these six tokens followed by a token that
+   cannot continue a postfix expression, p_cast_expression returns - if T was delivered as a type name - the cast of x
+   to the type T, and - if T was delivered as an ordinary identifier - the call of T with the argument x.  Which of the
+   two T is delivered as is C04_identifier_classified_by_scope. *)
+Theorem C04_paren_T_paren_x_is_a_cast : forall (P: Type) T x (s: pstate P) le stop l0,
+  Spell P le (ptpx K_TYPEID T x) -> Up P s (le ++ stop :: l0) -> quiet (tk stop) = true ->
+  exists f0 N s', (forall f, (f0 <= f)%nat -> p_cast_expression P f s = Ok (N, s')) /\ Up P s' (stop :: l0) /\
+    strip N = VNode C_Cast [tn_emb [T]; VNode C_ID [VStr x] None] None.
+Proof.
+  intros P T x s le stop l0 HS HU Hq. destruct (paren_T_paren_x_type P T x s le stop l0 HS HU Hq) as [f0 [N [s' [H [HU' [HN _]]]]]].
+  exists f0, N, s'. split; [exact H|split; [exact HU'|exact HN]].
+Qed.
+Print Assumptions C04_paren_T_paren_x_is_a_cast.
+
+Theorem C04_paren_T_paren_x_is_a_call : forall (P: Type) T x (s: pstate P) le stop l0,
+  Spell P le (ptpx K_ID T x) -> Up P s (le ++ stop :: l0) -> quiet (tk stop) = true ->
+  exists f0 N s', (forall f, (f0 <= f)%nat -> p_cast_expression P f s = Ok (N, s')) /\ Up P s' (stop :: l0) /\
+    strip N = VNode C_FuncCall [VNode C_ID [VStr T] None; VNode C_ExprList [VList [VNode C_ID [VStr x] None]] None] None.
+Proof.
+  intros P T x s le stop l0 HS HU Hq. destruct (paren_T_paren_x_object P T x s le stop l0 HS HU Hq) as [f0 [N [s' [H [HU' [HN _]]]]]].
+  exists f0, N, s'. split; [exact H|split; [exact HU'|exact HN]].
+Qed.
+Print Assumptions C04_paren_T_paren_x_is_a_call.
 
 (* non-vacuity, computed on the model: `T * x ; }` in a block whose enclosing scope declares T *)
 Theorem C04_typedef_decides_declaration :
